@@ -111,6 +111,10 @@ fn fam(name: &'static str) -> Family {
         races: false,
         factors: ALL_FACTORS,
         odd_tables: false,
+        odd_tables_compacting: false,
+        null_first: false,
+        mixed_case: false,
+        blind: false,
         tiny_wal: false,
         max_ops: 12,
     }
@@ -141,6 +145,7 @@ pub fn all() -> Vec<Box<dyn Suite>> {
                 (Family { restarts: false, evicts: false, ..fam("cycles") }, 26),
                 (Family { restarts: false, evicts: false, tiny_wal: true, bursts: true, max_ops: 10, ..fam("cycles-bgflush") }, 24),
                 (Family { odd_tables: true, evicts: false, factors: &[4, 999], max_ops: 9, ..fam("odd-table-names") }, 6),
+                (Family { odd_tables_compacting: true, evicts: false, factors: &[1], max_ops: 9, ..fam("odd-table-names-compacting") }, 8),
             ],
             thorough_scale: 8,
             witnesses: vec![],
@@ -155,6 +160,9 @@ pub fn all() -> Vec<Box<dyn Suite>> {
                 (Family { cols: Cols::VaryAcross, odd_names: true, factors: &[1, 4], ..fam("vary-across") }, 16),
                 (Family { cols: Cols::VaryAcross, odd_names: true, factors: &[0], max_ops: 8, ..fam("vary-across-recompact") }, 4),
                 (Family { cols: Cols::VaryWithin, odd_tables: true, factors: &[4, 999], max_ops: 9, ..fam("odd-table-names") }, 4),
+                (Family { cols: Cols::VaryWithin, null_first: true, factors: &[999], max_ops: 9, ..fam("null-first-columns") }, 6),
+                (Family { mixed_case: true, factors: &[1, 4, 999], max_ops: 8, ..fam("mixed-case-subpartitions") }, 6),
+                (Family { blind: true, factors: &[0, 1], ..fam("absent-columns-blind") }, 4),
                 (Family { cols: Cols::VaryAcross, odd_names: true, compressible: true, factors: &[0, 1], restarts: false, max_ops: 6, ..fam("long-compressible-names") }, 2),
             ],
             thorough_scale: 8,
@@ -168,6 +176,7 @@ pub fn all() -> Vec<Box<dyn Suite>> {
                 (Family { restarts: true, ..fam("dense") }, 10),
                 (Family { cols: Cols::VaryAcross, factors: &[1, 4, 999], ..fam("absent-columns") }, 10),
                 (Family { cols: Cols::VaryWithin, nulls: true, factors: &[999], ..fam("nulls-no-compaction") }, 8),
+                (Family { blind: true, factors: &[0, 1], ..fam("absent-columns-blind") }, 3),
                 (Family { cols: Cols::VaryWithin, nulls: true, factors: &[0, 1, 4], max_ops: 8, ..fam("nulls-compaction") }, 6),
                 (Family { strings: true, factors: &[1, 4, 999], restarts: false, ..fam("strings") }, 5),
                 (Family { factors: &[0, 1, 4], ..fam("wide-ints") }, 4),
